@@ -35,7 +35,20 @@ def _n(E, lst, hi):
 def _occ(E, lst, p, e, hi):
     """z3: the concrete byte string e occurs at position p of lst[:hi]"""
     a = E.larrs(lst)[0]
-    return z3.And(p >= 0, p + len(e) <= _n(E, lst, hi), *[z3.Select(a, p + j) == e[j] for j in range(len(e))])
+    return z3.And(p >= 0, p + len(e) <= _n(E, lst, hi),
+                  *[z3.Select(a, (p + j) if j else p) == e[j] for j in range(len(e))])
+
+
+def _all(q, body, arr):
+    """ForAll with the explicit trigger arr[q]: instantiated at every position the path reads (the automatically
+    chosen triggers arr[q + 1] are not matched by e-matching)"""
+    pat = z3.simplify(z3.Select(arr, q))          # beta-reduces a slice's lambda array
+    try:
+        if z3.is_app_of(pat, z3.Z3_OP_SELECT):
+            return z3.ForAll([q], body, patterns=[pat])
+    except z3.Z3Exception:
+        pass
+    return z3.ForAll([q], body)
 
 
 def _eols(eols):
@@ -67,7 +80,7 @@ def no_eol_in(E, lst, lo, up, hi, eols):
     """no mark of `eols` occurs in lst[:hi] at any position q with lo <= q < up"""
     q = z3.Int("q!ne%d" % next(E.counter))
     body = z3.Or(*[_occ(E, lst, q, e, hi) for e in _eols(eols)])
-    return Sym(z3.ForAll([q], z3.Implies(z3.And(q >= zint(lo), q < zint(up)), z3.Not(body))), "bool")
+    return Sym(_all(q, z3.Implies(z3.And(q >= zint(lo), q < zint(up)), z3.Not(body)), E.larrs(lst)[0]), "bool")
 
 
 @specfunc
@@ -92,23 +105,32 @@ def _n_occ(lst, p, e, hi):
     return p >= 0 and p + len(e) <= hi and bytes(lst[p:p + len(e)]) == bytes(e)
 
 
+def _n_first(lst, lo, up, hi, eols):
+    """first position q in [lo, up) at which some mark occurs inside lst[:hi], or None"""
+    hi = len(lst) if hi is None else hi
+    view = bytes(lst[:hi])
+    best = None
+    for e in eols:
+        q = view.find(bytes(e), max(lo, 0))
+        if q >= 0 and q < up and (best is None or q < best):
+            best = q
+    return best
+
+
 eol_at.native = lambda lst, p, hi, eols: any(_n_occ(lst, p, e, hi) for e in eols)
 eol_len_at.native = lambda lst, p, hi, eols: max([len(e) for e in eols if _n_occ(lst, p, e, hi)] or [0])
-no_eol_in.native = lambda lst, lo, up, hi, eols: not any(_n_occ(lst, q, e, hi) for q in range(max(lo, 0), up)
-                                                         for e in eols)
-has_eol.native = lambda lst, hi, eols: any(_n_occ(lst, q, e, hi) for q in range(len(lst) if hi is None else hi)
-                                           for e in eols)
+no_eol_in.native = lambda lst, lo, up, hi, eols: _n_first(lst, lo, up, hi, eols) is None
+has_eol.native = lambda lst, hi, eols: _n_first(lst, 0, len(lst) if hi is None else hi, hi, eols) is not None
 no_cr_lf.native = lambda lst: not any(b in (CR_, LF_) for b in lst)
 
 
 def ref_line(buf, eols, hi=None):
     """executable reference of the statement for one line: (line, consumed) or None when no mark is in buf[:hi]"""
     hi = len(buf) if hi is None else hi
-    for p in range(hi):
-        ls = [len(e) for e in eols if _n_occ(buf, p, e, hi)]
-        if ls:
-            return bytes(buf[:p]), p + max(ls)
-    return None
+    p = _n_first(buf, 0, hi, hi, eols)
+    if p is None:
+        return None
+    return bytes(buf[:p]), p + max(len(e) for e in eols if _n_occ(buf, p, e, hi))
 
 
 # ------------------------------------------------------------------------------------------ library externals
@@ -123,9 +145,10 @@ def _ba_find(E, args, kw):
     r = E.fresh("find", z3.IntSort())
     q = E.fresh("qf", z3.IntSort())
     n = E.llen(lv)
-    none = z3.ForAll([q], z3.Not(_occ(E, lv, q, needle, None)))
+    arr = E.larrs(lv)[0]
+    none = _all(q, z3.Not(_occ(E, lv, q, needle, None)), arr)
     first = z3.And(r >= 0, r <= n - len(needle), _occ(E, lv, r, needle, None),
-                   z3.ForAll([q], z3.Implies(z3.And(q >= 0, q < r), z3.Not(_occ(E, lv, q, needle, None)))))
+                   _all(q, z3.Implies(z3.And(q >= 0, q < r), z3.Not(_occ(E, lv, q, needle, None))), arr))
     E.assume(z3.Or(z3.And(r == -1, none), first))
     return Sym(r, "int")
 
@@ -256,3 +279,407 @@ contract(F, "parseLine", "C33,C29", tags=("step2", "logic=AUFLIA"), params=dict(
          replay=dict(make=_mk_line(EOLS_POOL, with_n0=True, big=False), call=_call_line, view=_view, count=600),
          note="prefix-stability lemma as a contract on the code; region cr-lf-split = the buffer ended with a CR "
               "that was its earliest mark and the next receive starts with LF")
+
+
+# ========================================================================================== ghost positions
+def _first(E, name, lo, hi, pred, arr):
+    """definitional ghost (least-number principle, always satisfiable): the first q in [lo, hi) with pred(q), else hi"""
+    p = E.fresh(name, z3.IntSort())
+    q = E.fresh("q" + name, z3.IntSort())
+    E.assume(z3.And(p >= lo, p <= hi))
+    E.assume(z3.Implies(p < hi, pred(p)))
+    E.assume(_all(q, z3.Implies(z3.And(q >= lo, q < p), z3.Not(pred(q))), arr))
+    return p
+
+
+OWS = (32, 9)            # optional whitespace of a header field value: SP / HTAB (RFC 7230 3.2)
+
+
+def _line_ghosts(colon=True, buf=None):
+    """setup: raw0 (snapshot) and the ghost positions of the FIRST line of raw0 as the statement defines it:
+    pstar = position of the earliest mark (len(raw0) if there is none); cpos = position of the first ':' of the line
+    (pstar if none); vs = first position after the colon that is not optional whitespace (pstar if none)"""
+    snap = _snap(via=buf)
+
+    def setup(E):
+        snap(E)
+        env = E.frame.env
+        raw0, eols = env["raw0"], _eols(env["eols"]) if "eols" in env else EOLS_POOL[0]
+        n = E.llen(raw0)
+        a = E.larrs(raw0)[0]
+        E.assume(n >= 0)
+        ps = _first(E, "pstar", z3.IntVal(0), n, lambda q: z3.Or(*[_occ(E, raw0, q, e, None) for e in eols]), a)
+        env["pstar"] = Sym(ps, "int")
+        if colon:
+            cp = _first(E, "cpos", z3.IntVal(0), ps, lambda q: z3.Select(a, q) == 58, a)
+            env["cpos"] = Sym(cp, "int")
+            lo = z3.If(cp + 1 < ps, cp + 1, ps)
+            vs = _first(E, "vs", lo, ps, lambda q: z3.And(*[z3.Select(a, q) != w for w in OWS]), a)
+            env["vs"] = Sym(vs, "int")
+    return setup
+
+
+def n_positions(buf, eols):
+    """native twin of the ghost positions"""
+    r = ref_line(buf, eols)
+    ps = len(buf) if r is None else len(r[0])
+    line = bytes(buf[:ps])
+    cp = line.find(b":")
+    cp = ps if cp < 0 else cp
+    vs = min(cp + 1, ps)
+    while vs < ps and line[vs] in OWS:
+        vs += 1
+    return {"pstar": ps, "cpos": cp, "vs": vs}
+
+
+REG.assume_note("ghost positions pstar / cpos / vs (first mark, first colon, first non-blank after the colon of the "
+                "first line) are introduced by their defining property (least-number principle); no other fact")
+
+
+# ========================================================================================== byte/str list externals
+def _ints(x):
+    if isinstance(x, (bytes, bytearray)):
+        return list(x)
+    if isinstance(x, str) and all(ord(c) < 256 for c in x):
+        return [ord(c) for c in x]
+    raise Unsupported("separator %r" % (x,))
+
+
+def _sub(E, lv, a, b, kind=None):
+    """new list lv[a:b]; its array is a NAMED array with the defining axiom (trigger: a read of the new array), so
+    that quantified facts about the new list chain to the facts about the source by e-matching"""
+    src = E.larrs(lv)[0]
+    arr = E.fresh("sub", src.sort())
+    k = E.fresh("ksub", z3.IntSort())
+    E.assume(z3.ForAll([k], z3.Select(arr, k) == z3.simplify(z3.Select(src, k + a)), patterns=[z3.Select(arr, k)]))
+    return E.new_list(lv.et, b - a, [arr], kind=kind or lv.kind)
+
+
+def _first_sep(E, lv, sep):
+    """branches on the presence of the concrete separator; returns its first position or None"""
+    n = E.llen(lv)
+    q = E.fresh("qs", z3.IntSort())
+    occ = lambda t: _occ(E, lv, t, bytes(sep), None)
+    arr = E.larrs(lv)[0]
+    if not E.branch(z3.Exists([q], occ(q))):
+        E.assume(_all(q, z3.Not(occ(q)), arr))
+        return None
+    return _first(E, "sep", z3.IntVal(0), n, occ, arr)
+
+
+@external("list.partition")
+def _l_partition(E, args, kw):
+    lv, sep = args[0], _ints(args[1])
+    n = E.llen(lv)
+    p = _first_sep(E, lv, sep)
+    if p is None:
+        return (_sub(E, lv, z3.IntVal(0), n), E.new_list(lv.et, 0, kind=lv.kind), E.new_list(lv.et, 0, kind=lv.kind))
+    E.assume(p < n)
+    return (_sub(E, lv, z3.IntVal(0), p), _sub(E, lv, p, p + len(sep)), _sub(E, lv, p + len(sep), n))
+
+
+@external("list.split")
+def _l_split(E, args, kw):
+    """x.split(sep, 1) for a concrete separator: [x] when sep does not occur, else [before, after] of the first one"""
+    lv, sep = args[0], _ints(args[1])
+    if len(args) != 3 or args[2] != 1 or kw:
+        raise Unsupported("split other than split(sep, 1)")
+    n = E.llen(lv)
+    p = _first_sep(E, lv, sep)
+    if p is None:
+        return E.list_from_values([_sub(E, lv, z3.IntVal(0), n)], et=List(lv.et))
+    E.assume(p < n)
+    return E.list_from_values([_sub(E, lv, z3.IntVal(0), p), _sub(E, lv, p + len(sep), n)], et=List(lv.et))
+
+
+PY_STR_WS = (9, 10, 11, 12, 13, 28, 29, 30, 31, 32, 133, 160)     # str.strip() on a latin-1 decoded text
+PY_BYTES_WS = (9, 10, 11, 12, 13, 32)                             # bytes.strip()
+
+
+@external("list.strip")
+def _l_strip(E, args, kw):
+    """x.strip([chars]): the slice between the first and the last character outside the stripped set"""
+    lv = args[0]
+    if len(args) > 1 and args[1] is not None:
+        ws = tuple(_ints(args[1]))
+    else:
+        ws = PY_STR_WS if lv.kind == "latin1" else PY_BYTES_WS
+    n = E.llen(lv)
+    a = E.larrs(lv)[0]
+    keep = lambda t: z3.And(*[z3.Select(a, t) != w for w in ws])
+    lo = _first(E, "strip_lo", z3.IntVal(0), n, keep, a)
+    # hi = one past the last kept character (lo when nothing is kept)
+    hi = E.fresh("strip_hi", z3.IntSort())
+    q = E.fresh("qh", z3.IntSort())
+    E.assume(z3.And(hi >= lo, hi <= n))
+    E.assume(z3.Implies(hi > lo, keep(hi - 1)))
+    E.assume(z3.Implies(lo < n, hi > lo))
+    E.assume(_all(q, z3.Implies(z3.And(q >= hi, q < n), z3.Not(keep(q))), a))
+    return _sub(E, lv, lo, hi)
+
+
+@external("list.decode")
+def _l_decode(E, args, kw):
+    lv = args[0]
+    codec = (args[1] if len(args) > 1 else kw.get("encoding", "utf-8"))
+    if not isinstance(codec, str):
+        raise Unsupported("decode with symbolic codec")
+    codec = codec.lower().replace("_", "-")
+    if codec in ("iso-8859-1", "latin-1", "latin1"):
+        # latin-1: character k of the text is the code point raw[k] - the text IS the same sequence of ints
+        return _sub(E, lv, z3.IntVal(0), E.llen(lv), kind="latin1")
+    if codec in ("utf-8", "utf8"):
+        return _utf8_decode(E, lv)
+    raise Unsupported("decode(%r)" % codec)
+
+
+REG.assume_note("bytearray/str methods on int-list modelled texts: partition(sep), split(sep, 1) (first occurrence of "
+                "a concrete separator, pointwise), strip([chars]) (Python's whitespace sets for str / bytes), "
+                "decode('iso-8859-1') = the same sequence of code points (never raises)")
+
+
+# ========================================================================================== lodict (header table)
+classdecl("lodict", file=None, fields=dict(log_k=List(BA), log_v=List(BA), n=INT))
+
+
+@hook("lodict", "ctor")
+def _lod_ctor(E, cv, args, kwargs):
+    if args or kwargs:
+        raise Unsupported("lodict(...) with arguments")
+    o = RefV(E.new_ref(), "lodict", nn=True)
+    E.wr_field(o, "log_k", E.new_list(BA, 0))
+    E.wr_field(o, "log_v", E.new_list(BA, 0))
+    E.wr_field(o, "n", 0)
+    return o
+
+
+@hook("lodict", "setitem")
+def _lod_set(E, o, key, val):
+    if not (isinstance(key, ListV) and isinstance(val, ListV)):
+        raise Unsupported("lodict[%r] = %r" % (key, val))
+    B.list_method(E, E.rd_field(o, "log_k"), "append", [key], {})
+    B.list_method(E, E.rd_field(o, "log_v"), "append", [val], {})
+    n = zint(E.rd_field(o, "n"))
+    n2 = E.fresh("lod_n", z3.IntSort())
+    E.assume(z3.And(n2 >= n, n2 <= n + 1))       # a new (lower-cased) key or an overwrite
+    E.wr_field(o, "n", Sym(n2, "int"))
+
+
+@hook("lodict", "len")
+def _lod_len(E, o):
+    return E.rd_field(o, "n")
+
+
+REG.assume_note("lodict (lower-casing ordered dict, ioflo/aid/odicting.py) is NOT verified here: headers[k] = v is "
+                "modelled as appending (k, v) to a ghost log of set operations and len(headers) as a counter that "
+                "grows by 0 or 1 per set; lodict() creates an empty one")
+
+
+@specfunc
+def hdr_count(E, h):
+    return Sym(E.llen(E.rd_field(h, "log_k")), "int")
+
+
+@specfunc
+def hdr_size(E, h):
+    return E.rd_field(h, "n")
+
+
+@specfunc
+def hdr_last_is(E, h, buf, k0, k1, v0, v1):
+    """the last header set has key == buf[k0:k1] and a value that is buf[v0:v1] with trailing optional whitespace
+    (SP / HTAB) kept or dropped: value == buf[v0:v0+len(value)], v0 + len(value) <= v1, rest all SP / HTAB"""
+    lk, lvv = E.rd_field(h, "log_k"), E.rd_field(h, "log_v")
+    m = E.llen(lk)
+    key = E.lget(lk, m - 1)
+    val = E.lget(lvv, m - 1)
+    k0, k1, v0, v1 = zint(k0), zint(k1), zint(v0), zint(v1)
+    a = E.larrs(buf)[0]
+    ka, va = E.larrs(key)[0], E.larrs(val)[0]
+    j = z3.Int("j!hl%d" % next(E.counter))
+    nk, nv = E.llen(key), E.llen(val)
+    return Sym(z3.And(m >= 1, E.llen(lvv) == m, nk == k1 - k0,
+                      z3.ForAll([j], z3.Implies(z3.And(j >= 0, j < nk), z3.Select(ka, j) == z3.Select(a, k0 + j))),
+                      nv >= 0, v0 + nv <= v1,
+                      z3.ForAll([j], z3.Implies(z3.And(j >= 0, j < nv), z3.Select(va, j) == z3.Select(a, v0 + j))),
+                      z3.ForAll([j], z3.Implies(z3.And(j >= v0 + nv, j < v1),
+                                                z3.Or(*[z3.Select(a, j) == w for w in OWS])))), "bool")
+
+
+def _n_hdr_last_is(h, buf, k0, k1, v0, v1):
+    if not h.last:
+        return False
+    key, val = h.last
+    key, val = key.encode("latin-1"), val.encode("latin-1")
+    buf = bytes(buf)
+    return key == buf[k0:k1] and v0 + len(val) <= max(v1, v0) and buf[v0:v0 + len(val)] == val and \
+        all(b in OWS for b in buf[v0 + len(val):v1])
+
+
+hdr_count.native = lambda h: h.sets
+hdr_size.native = lambda h: len(h)
+hdr_last_is.native = _n_hdr_last_is
+
+
+# ========================================================================================== parseLeader
+def _bytearray_kind(*names):
+    def setup(E):
+        for nm in names:
+            v = E.frame.env.get(nm)
+            if isinstance(v, ListV):
+                v.kind = "bytearray"
+    return setup
+
+
+def _seq(*fs):
+    def setup(E):
+        for f in fs:
+            f(E)
+    return setup
+
+
+class OnePass(bytearray):
+    """native double of the receive buffer that shows the generator ONE consuming pass: after the first deletion
+    (a line was consumed) find() reports no further mark, as if the rest had not arrived yet - the next pass then
+    waits (yields None, consumes nothing), so next() on the real generator == one pass of the step contract"""
+    consumed = False
+
+    def __delitem__(self, k):
+        self.consumed = True
+        return bytearray.__delitem__(self, k)
+
+    def find(self, *a):
+        if self.consumed:
+            return -1
+        return bytearray.find(self, *a)
+
+
+def _mk_lodict_double(mod):
+    base = mod.lodict
+
+    class LodictD(base):
+        sets = 0
+        last = None
+
+        def __setitem__(self, key, val):
+            self.sets += 1
+            self.last = (key, val)
+            return base.__setitem__(self, key, val)
+    return LodictD
+
+
+HEADER_SAMPLES = [b"Key: value", b"Key:value", b"Key:  value", b"Key: value ", b"K:", b"K: ", b"a:b:c", b"novalue",
+                  b"Content-Length: 10", b"X:\tv"]
+
+
+def _mk_leader(rng, i, cex, nr):
+    eols = (b"\r\n", b"\n")
+    buf = _cex_list(cex, "raw") if cex else None
+    if buf is None:
+        r = rng.random()
+        if r < 0.45:
+            buf = rng.choice(HEADER_SAMPLES) + rng.choice([b"\r\n", b"\n", b"", b"\r"]) + rand_bytes(rng, 0, 6)
+        elif r < 0.6:
+            buf = rng.choice([b"\r\n", b"\n"]) + rand_bytes(rng, 0, 6)
+        else:
+            buf = rand_bytes(rng)
+    hd = _mk_lodict_double(nr.mod)()
+    for _ in range(rng.randint(0, 2)):
+        hd["K%d" % rng.randint(0, 3)] = "v"
+    if i % 53 == 52:
+        for j in range(nr.mod.MAX_HEADERS + 1):
+            hd["h%d" % j] = "v"
+    env = {"raw": OnePass(buf), "raw0": bytes(buf), "eols": eols, "headers": hd}
+    env.update(n_positions(buf, eols))
+    return env
+
+
+def _call_leader(env, nr):
+    g = nr.fn(env["raw"], eols=env["eols"], headers=env["headers"])
+    return next(g)
+
+
+def _view_leader(env, nr):
+    d = _view(env, nr)
+    d["MAX_HEADERS"] = nr.mod.MAX_HEADERS
+    return d
+
+
+HAS = "pstar < len(raw0)"
+SAMEH = "hdr_count(headers) == old(hdr_count(headers))"
+CONSUMED = "is_slice(raw, raw0, pstar + eol_len_at(raw0, pstar, len(raw0), eols), len(raw0))"
+LEADER_ENSURES = [
+    # no mark: wait, nothing consumed, no header touched
+    "implies(not %s, result is None and seq_eq(raw, raw0) and %s and len(raw0) <= MAX_LINE_SIZE)" % (HAS, SAMEH),
+    "implies(not %s, step_emit and not step_exit)" % HAS,
+    # a line: exactly the line and its (longest, earliest) mark are consumed
+    "implies(%s, %s and pstar <= MAX_LINE_SIZE)" % (HAS, CONSUMED),
+    # empty line: the leader is complete, the header table is yielded
+    "implies(%s and pstar == 0, result is headers and %s)" % (HAS, SAMEH),
+    "implies(%s and pstar == 0, step_emit and not step_exit)" % HAS,
+    # header line `key: value` / `key:value`: one header is set, key = text before the first colon, value = text
+    # after it without the optional leading whitespace (trailing optional whitespace kept or dropped)
+    # (a line without any colon is malformed: outside the statement; ValueError is then allowed, C32's subject)
+    "implies(%s and pstar > 0 and cpos < pstar, result is None and "
+    "hdr_count(headers) == old(hdr_count(headers)) + 1 and hdr_last_is(headers, raw0, 0, cpos, vs, pstar))" % HAS,
+    "implies(%s and pstar > 0, not step_emit and not step_exit)" % HAS,
+]
+LEADER_RAISES = dict(LINE_RAISES)
+LEADER_RAISES["ValueError"] = ["%s and pstar > 0 and cpos == pstar" % HAS]       # malformed: no colon at all (C32)
+LEADER_RAISES["HTTPException"] = ["hdr_size(headers) > MAX_HEADERS"]
+
+contract(F, "parseLeader", "C29", tags=("step2", "logic=AUFLIA"),
+         params=dict(raw=BA, headers=Ref("lodict")), setup=_seq(_line_ghosts(), _bytearray_kind("raw")),
+         modifies=["raw[*]", "headers.log_k[*]", "headers.log_v[*]", "headers.n"],
+         ensures=LEADER_ENSURES, raises=LEADER_RAISES,
+         replay=dict(make=_mk_leader, call=_call_leader, view=_view_leader, count=500),
+         note="one pass of parseLeader for the marks (CRLF, LF); `headers` is the step state (created by the "
+              "prologue); a header line does not emit: the next pass follows at once")
+
+contract(F, "parseLeader", "C29", tags=("step2-init",), params=dict(raw=BA, headers=Opt(Ref("lodict"))),
+         modifies=[], ensures=["implies(headers is not None, L_headers is headers)",
+                               "implies(headers is None, fresh(L_headers) and hdr_count(L_headers) == 0 and "
+                               "hdr_size(L_headers) == 0)"],
+         note="prologue of parseLeader: the header table passed in, or a new empty lodict")
+
+
+# ========================================================================================== parseBom
+@specfunc
+def starts_with(E, lst, pre):
+    pre = bytes(pre)
+    a = E.larrs(lst)[0]
+    return Sym(z3.And(E.llen(lst) >= len(pre), *[z3.Select(a, j) == pre[j] for j in range(len(pre))]), "bool")
+
+
+starts_with.native = lambda lst, pre: bytes(lst[:len(pre)]) == bytes(pre)
+
+
+def _mk_bom(rng, i, cex, nr):
+    buf = _cex_list(cex, "raw") if cex else None
+    if buf is None:
+        bom = nr.mod.codecs.BOM_UTF8
+        buf = rng.choice([b"", bom[:1], bom[:2], bom, bom[:2] + b"a", b"a" + bom]) + rand_bytes(rng, 0, 4)
+    return {"raw": bytearray(buf), "raw0": bytes(buf), "bom": nr.mod.codecs.BOM_UTF8, "size": 3}
+
+
+def _call_bom(env, nr):
+    return next(nr.fn(env["raw"], bom=env["bom"]))
+
+
+contract(F, "parseBom", "C33", tags=("step2", "logic=AUFLIA"), params=dict(raw=BA, size=INT),
+         setup=_seq(_snap(), _bytearray_kind("raw")), requires=["size == len(bom)"], modifies=["raw[*]"],
+         ensures=[
+             "implies(len(raw0) < len(bom), result is None and seq_eq(raw, raw0))",
+             "implies(len(raw0) < len(bom), step_emit and not step_exit)",
+             "implies(len(raw0) >= len(bom) and starts_with(raw0, bom), "
+             "result == bom and is_slice(raw, raw0, len(bom), len(raw0)))",
+             "implies(len(raw0) >= len(bom) and not starts_with(raw0, bom), "
+             "result is not None and len(result) == 0 and seq_eq(raw, raw0))",
+             "implies(len(raw0) >= len(bom), step_emit and step_exit)",
+         ],
+         replay=dict(make=_mk_bom, call=_call_bom, count=200),
+         note="one pass of parseBom for bom = codecs.BOM_UTF8 (the default, the only value used); `size` is the "
+              "step state set by the prologue; the decision is taken on the first len(bom) bytes only, once they "
+              "are there (hence the same for every split)")
+contract(F, "parseBom", "C33", tags=("step2-init",), params=dict(raw=BA), modifies=[],
+         ensures=["L_size == len(bom)"], note="prologue of parseBom")
